@@ -1,4 +1,5 @@
 """Verus unit registry: which real functions are extracted, their contracts and declared rewrites."""
+import re
 UNITS = {}
 
 CLOSURE = "src/compiler/function/closure.rs"
@@ -960,4 +961,64 @@ UNITS["v_str_arith"] = dict(
                        "(match (this, rhs) { (Value::Bytes(_), Value::Integer(_)) | (Value::Bytes(_), Value::Float(_)) | (Value::Integer(_), Value::Bytes(_)) | (Value::Float(_), Value::Bytes(_)) | (Value::Null, Value::Null) | (Value::Null, Value::Integer(_)) | (Value::Integer(_), Value::Null) => r is Err && r->Err_0 is Add, _ => true })")],
              safety_id="C11.try_add.safety", safety_text="the capacity hint `lhs.len() + rhs.len()` cannot overflow under the stated precondition (the two strings fit in memory together)"),
     ],
+)
+
+
+# ------------------------------------------------------------------------------------------------
+CMP_OPS = [(">=", 1, "bytes_ge", "ts_ge"), ("<=", 3, "bytes_le", "ts_le"), (">", 0, "bytes_gt", "ts_gt"), ("<", 2, "bytes_lt_x", "ts_lt_x")]
+
+
+def cmp_rewrites():
+    """Operator-generic: whichever of the four operators a helper uses is carried over faithfully
+    (so a helper that uses the wrong operator is extracted as such and fails its contract)."""
+    rw = [RW_SELF]
+    for sym, code, bfn, tfn in CMP_OPS:
+        e = re.escape(sym)
+        rw += [
+            dict(**{"from": r"\(Value::Float\(lhs\), Value::Float\(rhs\)\) => \(lhs %s rhs\)\.into\(\)," % e, "regex": True, "optional": True, "to": "(Value::Float(lhs), Value::Float(rhs)) => Value::Boolean(float_cmp_ff(%d, lhs, rhs))," % code, "why": "NotNan<f64> comparison: opaque (C10 Kani)"}),
+            dict(**{"from": r"\(+lhs as f64\)? %s rhs\.into_inner\(\)\)\.into\(\)" % e, "regex": True, "optional": True, "to": "Value::Boolean(float_cmp_if(%d, lhs, rhs))" % code, "why": "mixed int/float comparison: opaque (C10 Kani)"}),
+            dict(**{"from": r"\(lhs\.into_inner\(\) %s rhs as f64\)\.into\(\)" % e, "regex": True, "optional": True, "to": "Value::Boolean(float_cmp_fi(%d, lhs, rhs))" % code, "why": "mixed float/int comparison: opaque (C10 Kani)"}),
+            dict(**{"from": r"\(lhs %s rhs\.try_bytes\(\)\?\)\.into\(\)" % e, "regex": True, "optional": True, "to": "Value::Boolean(%s(&lhs, &rhs.try_bytes()?))" % bfn, "why": "std `%s` on Bytes by its Ord definition" % sym}),
+            dict(**{"from": r"\(lhs %s rhs\.try_timestamp\(\)\?\)\.into\(\)" % e, "regex": True, "optional": True, "to": "Value::Boolean(%s(&lhs, &rhs.try_timestamp()?))" % tfn, "why": "chrono `%s` on DateTime<Utc> by its Ord definition" % sym}),
+            dict(**{"from": r"\(lhs %s rhs\)\.into\(\)" % e, "regex": True, "optional": True, "to": "Value::Boolean(lhs %s rhs)" % sym, "why": "From<bool> for Value"}),
+        ]
+    return rw
+
+
+def cmp_fn(name, sym, code, bfn, tfn, int_expr, bytes_spec, ts_spec):
+    return dict(id=name, file=ARITH, impl=ARITH_IMPL, name=name,
+        orig_sig="fn %s(self, rhs: Self) -> Result<Self, ValueError>" % name,
+        sig="pub fn %s(this: Value, rhs: Value) -> (r: Result<Value, ValueError>)" % name,
+        rewrites=cmp_rewrites(),
+        ensures=[("C10.%s.integers" % name, "`%s` on two integers is the integer comparison" % sym,
+                  "(match (this, rhs) { (Value::Integer(a), Value::Integer(b)) => r == Ok::<Value, ValueError>(Value::Boolean(%s)), _ => true })" % int_expr),
+                 ("C10.%s.strings" % name, "`%s` on two strings is the bytewise (lexicographic) comparison; a string against a non-string is a type error" % sym,
+                  "(match (this, rhs) { (Value::Bytes(a), Value::Bytes(b)) => r == Ok::<Value, ValueError>(Value::Boolean(%s)), (Value::Bytes(a), _) => r is Err, _ => true })" % bytes_spec),
+                 ("C10.%s.timestamps" % name, "`%s` on two timestamps is the chronological comparison; a timestamp against a non-timestamp is a type error" % sym,
+                  "(match (this, rhs) { (Value::Timestamp(a), Value::Timestamp(b)) => r == Ok::<Value, ValueError>(Value::Boolean(%s)), (Value::Timestamp(a), _) => r is Err, _ => true })" % ts_spec)],
+        safety_id="C10.%s.safety" % name)
+
+
+UNITS["v_cmp"] = dict(
+    prop=["C10"], tier="q", prelude=["cmp.rs"],
+    extra='''
+// consistency of the four operators over the std orders the helpers delegate to (C10: exactly one
+// of <, ==, > ; <= and >= agree with them)
+proof fn lemma_bytes_trichotomy(a: Seq<u8>, b: Seq<u8>)
+    ensures (bytes_lt(a, b) as int) + ((a =~= b) as int) + (bytes_lt(b, a) as int) == 1,
+    decreases a.len()
+{
+    if a.len() == 0 || b.len() == 0 { } else if a[0] != b[0] { } else {
+        lemma_bytes_trichotomy(a.drop_first(), b.drop_first());
+        if a.drop_first() =~= b.drop_first() { assert(a =~= seq![a[0]] + a.drop_first()); assert(b =~= seq![b[0]] + b.drop_first()); }
+    }
+}
+proof fn lemma_ts_trichotomy(a: Ts, b: Ts)
+    ensures (ts_lt(a, b) as int) + (ts_eq(a, b) as int) + (ts_lt(b, a) as int) == 1,
+{ }
+''',
+    fns=[cmp_fn("try_gt", ">", 0, "bytes_gt", "ts_gt", "a > b", "bytes_lt(b.b@, a.b@)", "ts_lt(b, a)"),
+         cmp_fn("try_ge", ">=", 1, "bytes_ge", "ts_ge", "a >= b", "!bytes_lt(a.b@, b.b@)", "!ts_lt(a, b)"),
+         cmp_fn("try_lt", "<", 2, "bytes_lt_x", "ts_lt_x", "a < b", "bytes_lt(a.b@, b.b@)", "ts_lt(a, b)"),
+         cmp_fn("try_le", "<=", 3, "bytes_le", "ts_le", "a <= b", "!bytes_lt(b.b@, a.b@)", "!ts_lt(b, a)")],
 )
